@@ -90,7 +90,7 @@ theorem nodeFacts_sliced {s : Str} {ts : List Token} {g : SpanKey → Option Spa
     NodeSliced s ts g env scope q v ks := by
   cases v with
   | element id =>
-    obtain ⟨⟨⟨p, l, sp, hm, h1, hpm, ns, hn, hif⟩, hattrs⟩, e, esp, hem, hne, h2⟩ := h
+    obtain ⟨⟨⟨p, l, sp, hm, h1, hpm, ns, hn, hif⟩, hattrs⟩, e, esp, hem, hne, h2, _⟩ := h
     have hsp : NameSlice s p l := hl.spelled _ hm
     refine ⟨⟨⟨p, l, sp, hm, ⟨_, h1, hsp.sliceBytes⟩, hpm, ns, hn, by simpa using hif⟩, e, esp, hem, hne, ?_, ?_⟩,
       fun k hk n w hkv => attrFacts_sliced hl (hattrs k hk n w hkv)⟩
